@@ -119,6 +119,7 @@ type GenesisOptions struct {
 	RtTwoVersions       bool     // the runtime has a second deployment (version 1.0.0) valid from epoch 3; node 1 is registered for the old version only
 	Prefix              []string // letter names executed (one block each) before the explored history starts: part of the initial state (interpreted by the engines, not by Genesis)
 	RtWhitelist         bool     // the compute runtime admits only whitelisted entities: every entity at most 1 compute and 2 validator nodes and 1 observer node for it; observers additionally only from entity 0 (per-role policy)
+	GovMetadata         bool     // governance: proposals must carry metadata (a title), votes do not need a registered entity
 	Focus               string   // interpreted by the engines: restricts the alphabet of a world to one theme (e.g. "churp")
 	KeyManager          bool     // a key manager runtime without TEE hardware owned by entity 0; all genesis nodes are also key manager nodes for it (pristine init response)
 	Feature261          bool     // consensus feature version 26.1 (runtime owner index, node / runtime admission rules of 26.1 after genesis)
@@ -557,6 +558,10 @@ func Genesis(k *Keys, o GenesisOptions) (*genesis.Document, error) {
 			}
 			doc.Registry.Nodes = append(doc.Registry.Nodes, sn3)
 		}
+	}
+	if o.GovMetadata {
+		doc.Governance.Parameters.AllowProposalMetadata = true
+		doc.Governance.Parameters.AllowVoteWithoutEntity = true
 	}
 	if o.Feature261 {
 		v := version.MustFromString("26.1")
